@@ -422,3 +422,82 @@ def helpers_reaching(prog, fn, target, depth=3):
                 out.add(h.name)
                 changed = True
     return out
+
+
+def trip_count(fn, loop):
+    """number of iterations of a counting loop, when it is a constant: a counter that
+    starts at a constant (for-init, or its declaration / last assignment in front of the
+    loop), is stepped by one once per iteration and compared with a constant.  Handles
+    `for (i = a; i < b; i++)`, `while (n > 0) { ..; n -= 1; }` and the like; None when
+    the shape is anything else."""
+    cond = None
+    if loop['k'] == 'for':
+        parts = loop.get('parts', [])
+        cond = fn.node(parts[1]) if len(parts) > 1 and parts[1] >= 0 else None
+    elif loop['k'] == 'while':
+        cond = fn.kid(loop, 0)
+    cond = strip_casts(fn, cond) if cond is not None else None
+    if cond is None or cond['k'] != 'bin' or cond['op'] not in ('<', '<=', '>', '>=', '!='):
+        return None
+    a, b = strip_casts(fn, fn.kid(cond, 0)), strip_casts(fn, fn.kid(cond, 1))
+    op = cond['op']
+    if a is not None and a['k'] != 'ref' and b is not None and b['k'] == 'ref':
+        a, b = b, a
+        op = {'<': '>', '<=': '>=', '>': '<', '>=': '<=', '!=': '!='}[op]
+    if a is None or a['k'] != 'ref' or const_of(b) is None:
+        return None
+    v, limit = a['name'], const_of(b)
+    # steps of v inside the loop
+    steps = []
+    for x in fn.walk(loop):
+        if x['k'] == 'un' and x['op'] in ('++', 'post++', '--', 'post--'):
+            l = strip_casts(fn, fn.kid(x, 0))
+            if l is not None and l['k'] == 'ref' and l['name'] == v:
+                steps.append(1 if '+' in x['op'] else -1)
+        elif x['k'] == 'bin' and x['op'] in ('+=', '-=', '='):
+            l = strip_casts(fn, fn.kid(x, 0))
+            if l is not None and l['k'] == 'ref' and l['name'] == v:
+                if loop['k'] == 'for' and loop.get('parts') and fn.node(loop['parts'][0]) is not None and \
+                        any(y is x for y in fn.walk(fn.node(loop['parts'][0]))):
+                    continue            # the for-init
+                c = const_of(strip_casts(fn, fn.kid(x, 1)))
+                if x['op'] == '=' or c != 1:
+                    return None
+                steps.append(1 if x['op'] == '+=' else -1)
+    if len(steps) != 1:
+        return None
+    step = steps[0]
+    # initial value
+    init = None
+    if loop['k'] == 'for' and loop.get('parts') and loop['parts'][0] >= 0:
+        for x in fn.walk(fn.node(loop['parts'][0])):
+            if x['k'] == 'decl' and x.get('name') == v and x.get('c'):
+                init = const_of(strip_casts(fn, fn.kid(x, 0)))
+            elif x['k'] == 'bin' and x['op'] == '=':
+                l = strip_casts(fn, fn.kid(x, 0))
+                if l is not None and l['k'] == 'ref' and l['name'] == v:
+                    init = const_of(strip_casts(fn, fn.kid(x, 1)))
+    if init is None:
+        best = None
+        inside = set(y['i'] for y in fn.walk(loop))
+        cands = sorted((x for x in fn.all_nodes() if x['i'] not in inside and
+                        x.get('l', 0) <= loop.get('l', 0)), key=lambda x: x.get('l', 0))
+        for x in cands:
+            if x['k'] == 'decl' and x.get('name') == v and x.get('c'):
+                best = fn.kid(x, 0)
+            elif x['k'] == 'bin' and x['op'] == '=':
+                l = strip_casts(fn, fn.kid(x, 0))
+                if l is not None and l['k'] == 'ref' and l['name'] == v:
+                    best = fn.kid(x, 1)
+        init = const_of(strip_casts(fn, best)) if best is not None else None
+    if init is None:
+        return None
+    if step == 1 and op in ('<', '!='):
+        return max(limit - init, 0)
+    if step == 1 and op == '<=':
+        return max(limit - init + 1, 0)
+    if step == -1 and op in ('>', '!='):
+        return max(init - limit, 0)
+    if step == -1 and op == '>=':
+        return max(init - limit + 1, 0)
+    return None
